@@ -13,8 +13,12 @@
                                    [start_timing_of p] / [end_timing_of p] / TError
      gen_graph_timings_agree       graph level: [graph_start] / [graph_end] / TError
      gen_lambda_ops_agree,         the operations of a lambda node resp. a tool call in [node_ops] / [call_ops] are the
-     gen_call_ops_agree            context creation followed by what runWithCallbacks fires, and their payloads
+     gen_call_ops_agree            context creation followed by what runWithCallbacks fires - whether the execution
+                                   returns a result, returns an error or panics (F-C10d) -, and their payloads
                                    ([annot]) are the closure's input, output resp. error
+     gen_graph_bookkeeping_agrees, runner.run reduced to what bears on the graph-level callbacks: on every control-flow path
+     gen_graph_ops_agree           exactly one start, then exactly one end (nil error) or error callback, deferred
+                                   bookkeeping included; they are the first and last operation of [graph_body]
    A changed timing constant, a handle function iterating in the other direction, a wrapper wired to
    another timing, a callback dropped from or added to runWithCallbacks makes these fail. *)
 From Eino Require Import Base.Util Base.GoSlice Model.Callbacks Model.CallbacksSched Model.CallbacksPayload
@@ -120,19 +124,22 @@ Proof.
     repeat match goal with |- context [if ?c then _ else _] => destruct c end; lia.
 Qed.
 
-(* what runWithCallbacks fires around a unit called in paradigm p, as operations with payloads *)
-Lemma run_with_callbacks_pops unk u p failed : (p < 4)%N ->
-  t_pops u p (T.run_with_callbacks unk failed) =
+(* what runWithCallbacks fires around a unit called in paradigm p, as operations with payloads: the
+   start with what the unit is run on; then, whether the execution returns a result, returns an error
+   or panics, exactly one end: the end callback with the result, resp. the error callback with the
+   error (the error made of the panic) *)
+Lemma run_with_callbacks_pops unk u p o : (p < 4)%N ->
+  t_pops u p (T.run_with_callbacks unk o) =
   [(OOn u (start_timing_of p), pin u);
-   (OOn u (if failed then TError else end_timing_of p), if failed then perr u else pout u)].
+   (OOn u (if fails_of o then TError else end_timing_of p), if fails_of o then perr u else pout u)].
 Proof.
-  intros Hp. destruct (native_cases p Hp) as [->|[->|[->| ->]]]; destruct failed; reflexivity.
+  intros Hp. destruct (native_cases p Hp) as [->|[->|[->| ->]]]; destruct o; reflexivity.
 Qed.
 
-Theorem gen_lambda_ops_agree : forall unk is_stream parent opts uid key inf natives fails,
-  map annot (fst (node_ops is_stream parent opts (GLambda uid key inf natives fails))) =
+Theorem gen_lambda_ops_agree : forall unk is_stream parent opts uid key inf natives o,
+  map annot (fst (node_ops is_stream parent opts (GLambda uid key inf natives (fails_of o)))) =
   annot (OAppend (Some parent) uid inf (designated key opts))
-  :: t_pops uid (pick_native is_stream natives) (T.run_with_callbacks unk fails).
+  :: t_pops uid (pick_native is_stream natives) (T.run_with_callbacks unk o).
 Proof.
   intros. rewrite (run_with_callbacks_pops unk) by apply pick_native_lt4.
   cbn [node_ops fst map]. f_equal. unfold annot, payload_of.
@@ -141,12 +148,12 @@ Proof.
     by (unfold start_timing_of; destruct (N.eqb p 0 || N.eqb p 1); auto).
   assert (He : end_timing_of p = TEnd \/ end_timing_of p = TEndStream)
     by (unfold end_timing_of; destruct (N.eqb p 0 || N.eqb p 2); auto).
-  destruct Hs as [-> | ->]; destruct fails; try reflexivity; destruct He as [-> | ->]; reflexivity.
+  destruct Hs as [-> | ->]; destruct (fails_of o); try reflexivity; destruct He as [-> | ->]; reflexivity.
 Qed.
 
-Theorem gen_call_ops_agree : forall unk is_stream tn cu cinf natives fails,
-  map annot (call_ops is_stream tn (cu, cinf, natives, fails)) =
-  annot (OReuse tn cu cinf) :: t_pops cu (pick_native is_stream natives) (T.run_with_callbacks unk fails).
+Theorem gen_call_ops_agree : forall unk is_stream tn cu cinf natives o,
+  map annot (call_ops is_stream tn (cu, cinf, natives, fails_of o)) =
+  annot (OReuse tn cu cinf) :: t_pops cu (pick_native is_stream natives) (T.run_with_callbacks unk o).
 Proof.
   intros. rewrite (run_with_callbacks_pops unk) by apply pick_native_lt4.
   cbn [call_ops map]. f_equal. unfold annot, payload_of.
@@ -155,7 +162,58 @@ Proof.
     by (unfold start_timing_of; destruct (N.eqb p 0 || N.eqb p 1); auto).
   assert (He : end_timing_of p = TEnd \/ end_timing_of p = TEndStream)
     by (unfold end_timing_of; destruct (N.eqb p 0 || N.eqb p 2); auto).
-  destruct Hs as [-> | ->]; destruct fails; try reflexivity; destruct He as [-> | ->]; reflexivity.
+  destruct Hs as [-> | ->]; destruct (fails_of o); try reflexivity; destruct He as [-> | ->]; reflexivity.
+Qed.
+
+(* ---------------------------------------------------------------- runner.run: graph-level bookkeeping *)
+
+(* compose/graph_run.go, func (r *runner) run, reduced to what bears on the graph-level callbacks
+   (T.run_flag_init, T.run_deferred, T.run_body; semantics in Model/CallbacksGenLib.v: opaque
+   conditions go both ways, loops that fire no callback are left in the state they were entered):
+   on EVERY control-flow path from the entry to a return, the deferred function included, the graph
+   level callbacks fired are exactly the start followed by exactly one end - the end callback when the
+   function returns a nil error, the error callback otherwise; no path falls off the end, no loop
+   fires a callback; and the main loop (the last statement) is only ever entered after the start *)
+Theorem gen_graph_bookkeeping_agrees :
+  let r := run_outcomes T.run_flag_init T.run_deferred T.run_body in
+  snd r = true /\
+  Forall (fun o : list cbrole * bool => fst o = [CbStart; if snd o then CbError else CbEnd]) (fst r) /\
+  (exists o, In o (fst r) /\ snd o = true) /\ (exists o, In o (fst r) /\ snd o = false) /\
+  states_before_last T.run_flag_init T.run_body = [(true, [CbStart])].
+Proof.
+  vm_compute. split; [reflexivity|]. split; [repeat constructor|].
+  split; [exists ([CbStart; CbError], true); split; [simpl; repeat first [left; reflexivity | right]|reflexivity]|].
+  split; [|reflexivity].
+  exists ([CbStart; CbEnd], false); split; [simpl; repeat first [left; reflexivity | right]|reflexivity].
+Qed.
+
+(* the model's graph level: the operations of a graph run on its own context are the start, what the
+   stages do, and one end-or-error *)
+Lemma graph_body_shape is_stream g ok rs :
+  fst (graph_body is_stream g ok rs) =
+  OOn g (graph_start is_stream) :: (if ok then fst (stages_body rs) else []) ++
+  [OOn g (if snd (graph_body is_stream g ok rs) then TError else graph_end is_stream)].
+Proof. unfold graph_body. destruct ok; reflexivity. Qed.
+
+Definition graph_role_timing (is_stream : bool) (r : cbrole) : option timing :=
+  t_graph_timing (match r with CbStart => "onGraphStart" | CbEnd => "onGraphEnd" | CbError => "onGraphError" end)%string is_stream.
+
+(* hence: whatever path runner.run takes, the callbacks it fires on the graph's context are the first and
+   the last operation of the model's [graph_body] with the same outcome *)
+Theorem gen_graph_ops_agree : forall is_stream g ok rs o,
+  In o (fst (run_outcomes T.run_flag_init T.run_deferred T.run_body)) ->
+  snd o = snd (graph_body is_stream g ok rs) ->
+  exists s e, map (graph_role_timing is_stream) (fst o) = [Some s; Some e] /\
+    fst (graph_body is_stream g ok rs) = OOn g s :: (if ok then fst (stages_body rs) else []) ++ [OOn g e].
+Proof.
+  intros is_stream g ok rs o Hin Ho.
+  destruct gen_graph_bookkeeping_agrees as (_ & Hall & _).
+  rewrite Forall_forall in Hall. specialize (Hall o Hin). rewrite Hall.
+  exists (graph_start is_stream), (if snd o then TError else graph_end is_stream).
+  split.
+  - destruct (gen_graph_timings_agree is_stream) as (Hs & He & Hx).
+    cbn [map]. unfold graph_role_timing. rewrite Hs. destruct (snd o); [rewrite Hx|rewrite He]; reflexivity.
+  - rewrite Ho. apply graph_body_shape.
 Qed.
 
 (* non-vacuity: the tables distinguish the paradigms *)
